@@ -799,6 +799,40 @@ var scenarios = []scenario{
 		c.crash(2, true)
 		c.crash(1, true)
 	}, 3, false},
+	{"bootstrap-after-voting", func(c *simCluster) {
+		// a node without configuration grants a vote (term and vote become durable) and is bootstrapped
+		// afterwards: the term on disk must not go back, the vote must not be forgotten
+		c.elect(1)
+		for _, term := range []uint64{5, 1} {
+			id := uint64(4)
+			if term == 1 {
+				id = 5
+			}
+			if err := c.addNode(id, nil); err != nil {
+				return
+			}
+			n := c.nodes[id]
+			q := &voteReq{req: req{term, 2}, lastLogIndex: 9, lastLogTerm: 1}
+			c.net = append(c.net, &simMsg{from: 2, to: id, wire: wireReq(q, nil), kind: rpcVote, epoch: c.epoch[2], dup: true,
+				lit: "(EVoteReq " + coqVoteReq(q) + ")"})
+			c.deliver(len(c.net) - 1)
+			nodes := map[uint64]Node{}
+			for v, vn := range c.boot {
+				nodes[v] = vn
+			}
+			nodes[id] = Node{ID: id, Addr: fmt.Sprintf("M%d:8888", id), Voter: true}
+			cfg := Config{Nodes: nodes}
+			t := ChangeConfig(cfg).(changeConfig)
+			st := c.newTask(id, t, "changeConfig")
+			pv := c.run(n, "bootstrap after voting", fmt.Sprintf("(ETask (TChangeConfig %d %s))", st.id, coqConfig(cfg)), func() (response, []string) {
+				n.r.executeTask(t)
+				return nil, nil
+			})
+			if pv != nil {
+				c.crash(id, true)
+			}
+		}
+	}, 3, false},
 	{"single-voter-grows", func(c *simCluster) {
 		c.elect(1)
 		_ = c.addNode(2, nil)
